@@ -593,6 +593,54 @@ def r9_tails_admit_blanks(run: Run, src, g):
         raise AnalysisError('C05.R9', f'only {n} terminals analysed')
 
 
+def r10_formula_text_untouched(run: Run, src):
+    """the characters the token classes see are the characters of the formula: between two tokens the lexer may strip blanks at
+    the ends of the remaining text, nothing else -- a rewrite of the whole text (split/join, replace, re.sub, case change)
+    also rewrites the inside of string literals"""
+    from .common import normalized_method
+    fi, fn = normalized_method(src, 'Lexer', 'parse')
+    ps = [p for p in fi.params if p not in ('cls', 'self')]
+    text = ps[0]
+    loc = loc_of(fi.module.path, fi.node)
+    n = 0
+
+    def harmless(e, names, depth=0):
+        """e is the text itself, or the text with blanks stripped at its ends"""
+        if isinstance(e, ast.Name) and e.id in names:
+            return True
+        if isinstance(e, ast.Call) and isinstance(e.func, ast.Attribute) and e.func.attr in ('strip', 'lstrip', 'rstrip') and \
+                not e.keywords and all(isinstance(a_, ast.Constant) and isinstance(a_.value, str) and a_.value.strip() == '' for a_ in e.args):
+            return harmless(e.func.value, names, depth + 1)
+        return False
+    names = {text}
+    # names that receive the tail handed back by a token class: `token, rest = token_class.get(...)`
+    for st in ast.walk(fn):
+        if isinstance(st, ast.Assign) and isinstance(st.value, ast.Call) and isinstance(st.value.func, ast.Attribute) and \
+                st.value.func.attr == 'get' and isinstance(st.targets[0], ast.Tuple) and len(st.targets[0].elts) == 2 and \
+                isinstance(st.targets[0].elts[1], ast.Name):
+            names.add(st.targets[0].elts[1].id)
+    for st in ast.walk(fn):
+        if isinstance(st, (ast.Assign, ast.AugAssign, ast.AnnAssign)):
+            tg = st.targets if isinstance(st, ast.Assign) else [st.target]
+            for t in tg:
+                if isinstance(t, ast.Name) and t.id in names and not (isinstance(st, ast.Assign) and isinstance(st.value, ast.Call) and
+                                                                        isinstance(st.value.func, ast.Attribute) and st.value.func.attr == 'get'):
+                    n += 1
+                    val = st.value
+                    run.check(val is not None and harmless(val, names), 'C05.R10', f'Lexer.parse/{ast.unparse(st)[:50]}', 'formula-text-rewritten',
+                              f'`{ast.unparse(st)[:80]}` replaces the text that is being lexed by something other than the remaining '
+                              f'text with blanks stripped at its ends: what the token classes see is no longer the formula (the inside '
+                              f'of string literals included)', fact='remaining text, blanks stripped', loc=loc_of(fi.module.path, st))
+    gets = [c for c in ast.walk(fn) if isinstance(c, ast.Call) and isinstance(c.func, ast.Attribute) and c.func.attr == 'get' and c.args]
+    if not gets:
+        raise AnalysisError('C05.R10', 'no call of <token class>.get(<text>, ...) found in Lexer.parse')
+    for c in gets:
+        n += 1
+        run.check(harmless(c.args[0], names), 'C05.R10', f'Lexer.parse/{ast.unparse(c)[:50]}', 'formula-text-rewritten',
+                  f'the token classes are tried on `{ast.unparse(c.args[0])[:60]}`, not on the remaining formula text (blanks stripped)',
+                  fact='get(<remaining text>.lstrip())', loc=loc_of(fi.module.path, c))
+
+
 def r6(run: Run, src, g, em):
     """every argument of every function production reaches the output"""
     seen = set()
@@ -660,6 +708,9 @@ def run(run: Run):
     borrow(run, 'C05.R8', c09.r1, src)
     run.rule('C05.R9', 'the tail pattern of every terminal accepts a tail that starts with blanks')
     run.guard('C05.R9', r9_tails_admit_blanks, run, src, g)
+    run.rule('C05.R10', 'the lexer tries the token classes on the formula text itself (only blanks at the ends are stripped)')
+    run.guard('C05.R10', r10_formula_text_untouched, run, src)
+    run.floor('C05.R10', 2)
     run.floor('C05.R9', 20)
     run.floor('C05.R8', 8)
     run.floor('C05.R7', 3)
